@@ -1,4 +1,4 @@
-import FeatherModel.Lemmas.ClassWriteFullBlocks
+import FeatherModel.Lemmas.ClassWriteFullGen
 
 /-!
 # C02 (whole writer) — `write_field`: the bytes are the encoding of a legal `FieldLayout` denoting the field
@@ -47,16 +47,16 @@ theorem putConstantValue_spec {p p' : Pool} {v : ConstantValue} {i : Nat} (hg : 
 /-- an attribute of the layout as it is framed in the file -/
 def SFieldAttr.frame (a : SFieldAttr) : Bytes := attrFrame a.raw.1 a.raw.2
 
-theorem toList_map {α β : Type} (f : α → β) (o : Option α) : (o.map f).toList = o.toList.map f := by
-  cases o <;> rfl
+/-- fields: framing, legality, effect on the facts -/
+def ownField : Own SFieldAttr FieldFacts := ⟨SFieldAttr.frame, fun rp a => a.Legal rp, SFieldAttr.apply⟩
 
-/-- conditions on a field of the proved fragment that do not depend on the pool: no annotations (yet), flags within
-the mask, a valid name, unknown attributes not named like a known one -/
+/-- conditions on a field of the proved fragment that do not depend on the pool: flags within the mask, a valid name,
+well-typed annotations within the reader's nesting limit, unknown attributes not named like a known one -/
 structure FieldOk (f : FieldFacts) : Prop where
-  rva : f.rva = []
-  ria : f.ria = []
-  rvta : f.rvta = []
-  rita : f.rita = []
+  rva : AnnosOk f.rva
+  ria : AnnosOk f.ria
+  rvta : TypeAnnosOk .field f.rvta
+  rita : TypeAnnosOk .field f.rita
   access : f.access < 65536
   mask : f.access &&& maskField = f.access
   name : validUnqualified f.name = true
@@ -77,6 +77,80 @@ theorem applyAll_field_unknown (st : FieldFacts) : ∀ (ncs : List Nat) (as : Li
       rw [ih _ ncs (by simpa using hl)]
       simp
 
+theorem fblock_deprecated {f : FieldFacts} {o : Option Bytes} {q : Pool}
+    (c : (f.deprecated = false ∧ o = none) ∨ (f.deprecated = true ∧ Present o q sDeprecated [])) :
+    GBlock ownField o q (fun _ => True) (fun c => { c with deprecated := c.deprecated || f.deprecated }) := by
+  rcases c with ⟨hf, rfl⟩ | ⟨hf, nc, rfl, hn, a⟩
+  · exact gblock_absent (fun c _ => by simp [hf])
+  · exact gblock_present (O := ownField) (.deprecated nc) (fun q' hq => ⟨hn, getUtf8_of hq.good (a.mono hq.le)⟩)
+      (fun st _ => by simp [ownField, SFieldAttr.apply, hf])
+
+theorem fblock_synthetic {f : FieldFacts} {o : Option Bytes} {q : Pool}
+    (c : (f.synthetic = false ∧ o = none) ∨ (f.synthetic = true ∧ Present o q sSynthetic [])) :
+    GBlock ownField o q (fun _ => True) (fun c => { c with synthetic := c.synthetic || f.synthetic }) := by
+  rcases c with ⟨hf, rfl⟩ | ⟨hf, nc, rfl, hn, a⟩
+  · exact gblock_absent (fun c _ => by simp [hf])
+  · exact gblock_present (O := ownField) (.synthetic nc) (fun q' hq => ⟨hn, getUtf8_of hq.good (a.mono hq.le)⟩)
+      (fun st _ => by simp [ownField, SFieldAttr.apply, hf])
+
+theorem fblock_constant {f : FieldFacts} {o : Option Bytes} {q : Pool}
+    (c : (f.constant = none ∧ o = none) ∨
+      (∃ v cp, f.constant = some v ∧ Present o q sConstantValue (be16 cp) ∧ cp < 65536 ∧ ConstAt q cp v)) :
+    GBlock ownField o q (fun c => c.constant = none) (fun c => { c with constant := f.constant }) := by
+  rcases c with ⟨hf, rfl⟩ | ⟨v, cp, hf, ⟨nc, rfl, hn, a⟩, hc, ac⟩
+  · exact gblock_absent (fun c hc => by cases c; simp_all)
+  · exact gblock_present (O := ownField) (.constantValue nc cp v)
+      (fun q' hq => ⟨hn, getUtf8_of hq.good (a.mono hq.le), hc, getConstantValue_of hq.good (ac.mono hq.le)⟩)
+      (fun st hst => by simp [ownField, SFieldAttr.apply, hst, hf])
+
+theorem fblock_signature {f : FieldFacts} {o : Option Bytes} {q : Pool}
+    (c : (f.signature = none ∧ o = none) ∨
+      (∃ s cp, f.signature = some s ∧ Present o q sSignature (be16 cp) ∧ cp < 65536 ∧ Utf8At q cp s)) :
+    GBlock ownField o q (fun c => c.signature = none) (fun c => { c with signature := f.signature }) := by
+  rcases c with ⟨hf, rfl⟩ | ⟨s, cp, hf, ⟨nc, rfl, hn, a⟩, hc, ac⟩
+  · exact gblock_absent (fun c hc => by cases c; simp_all)
+  · exact gblock_present (O := ownField) (.signature nc cp s)
+      (fun q' hq => ⟨hn, getUtf8_of hq.good (a.mono hq.le), hc, getUtf8_of hq.good (ac.mono hq.le)⟩)
+      (fun st hst => by simp [ownField, SFieldAttr.apply, hst, hf])
+
+theorem fblock_annos (visible : Bool) {as : List Annotation} {o : Option Bytes} {q : Pool}
+    (c : (as = [] ∧ o = none) ∨
+      ∃ sas : List SAnno, Present o q (if visible then sRVA else sRIA) (encAnnos sas) ∧ sas.map SAnno.fact = as ∧
+        sas.length < 65536 ∧ (encAnnos sas).length < 4294967296 ∧ ∀ sa ∈ sas, Sound q (fun rp => sa.Ok rp)) :
+    GBlock ownField o q (fun _ => True)
+      (fun c => if visible then { c with rva := c.rva ++ as } else { c with ria := c.ria ++ as }) := by
+  rcases c with ⟨rfl, rfl⟩ | ⟨sas, ⟨nc, rfl, hn, a⟩, hm, hl, hb, hs⟩
+  · exact gblock_absent (fun c _ => by cases visible <;> simp)
+  · exact gblock_present (O := ownField) (.annotations nc visible sas)
+      (fun q' hq => ⟨hn, getUtf8_of hq.good (a.mono hq.le), hl, fun sa hsa => hs sa hsa q' hq, hb⟩)
+      (fun st _ => by cases visible <;> simp [ownField, SFieldAttr.apply, hm])
+
+theorem fblock_typeAnnos (visible : Bool) {as : List TypeAnno} {o : Option Bytes} {q : Pool}
+    (c : (as = [] ∧ o = none) ∨
+      ∃ sas : List STypeAnno, Present o q (if visible then sRVTA else sRITA) (encTypeAnnos sas) ∧ sas.map STypeAnno.fact = as ∧
+        sas.length < 65536 ∧ (encTypeAnnos sas).length < 4294967296 ∧ ∀ sa ∈ sas, Sound q (fun rp => sa.Legal rp .field)) :
+    GBlock ownField o q (fun _ => True)
+      (fun c => if visible then { c with rvta := c.rvta ++ as } else { c with rita := c.rita ++ as }) := by
+  rcases c with ⟨rfl, rfl⟩ | ⟨sas, ⟨nc, rfl, hn, a⟩, hm, hl, hb, hs⟩
+  · exact gblock_absent (fun c _ => by cases visible <;> simp)
+  · exact gblock_present (O := ownField) (.typeAnnotations nc visible sas)
+      (fun q' hq => ⟨hn, getUtf8_of hq.good (a.mono hq.le), hl, fun sa hsa => hs sa hsa q' hq, hb⟩)
+      (fun st _ => by cases visible <;> simp [ownField, SFieldAttr.apply, hm])
+
+theorem fblocks_unknown {f : FieldFacts} (hok : ∀ a ∈ f.attrs, a.name ∉ fieldAttrNames) {q : Pool} {ncs : List Nat}
+    (hlen : ncs.length = f.attrs.length)
+    (hunk : ∀ x ∈ ncs.zip f.attrs, x.1 < 65536 ∧ Utf8At q x.1 x.2.name ∧ x.2.bytes.length < 4294967296) :
+    GBlocks ownField ((ncs.zip f.attrs).map (fun x => attrFrame x.1 x.2.bytes)) q (fun _ => True)
+      (fun c => { c with attrs := c.attrs ++ f.attrs }) := by
+  refine ⟨(ncs.zip f.attrs).map fun x => SFieldAttr.unknown x.1 x.2.name x.2.bytes, ?_, ?_, ?_⟩
+  · simp [List.map_map, Function.comp_def, ownField, SFieldAttr.frame, SFieldAttr.raw]
+  · intro a ha q' hq
+    obtain ⟨x, hx, rfl⟩ := List.mem_map.mp ha
+    obtain ⟨hn, hu, hb⟩ := hunk x hx
+    exact ⟨hn, getUtf8_of hq.good (hu.mono hq.le), hok x.2 (List.of_mem_zip hx).2, hb⟩
+  · intro st _
+    exact applyAll_field_unknown st ncs f.attrs hlen
+
 theorem writeField_spec {p p' : Pool} {f : FieldFacts} {b : Bytes} (hg : Good p) (hok : FieldOk f)
     (h : writeField p f = .ok (b, p')) :
     Step p p' ∧ ∃ l : FieldLayout, b = l.encode ∧ Sound p' (fun rp => l.Legal rp) ∧ l.facts = some f := by
@@ -88,24 +162,15 @@ theorem writeField_spec {p p' : Pool} {f : FieldFacts} {b : Bytes} (hg : Good p)
   cases this
   obtain ⟨s1, a1, hni⟩ := putUtf8_spec hg h1
   obtain ⟨s2, a2, hdi⟩ := putUtf8_spec s1.good h2
-  rw [hok.rva, hok.ria, hok.rvta, hok.rita] at h3
-  -- the blocks
   simp only [List.cons_append, List.nil_append] at h3
   obtain ⟨o1, q1, r1, e1, k1, rfl⟩ := runAttrs_cons_inv h3
   obtain ⟨o2, q2, r2, e2, k2, rfl⟩ := runAttrs_cons_inv k1
   obtain ⟨o3, q3, r3, e3, k3, rfl⟩ := runAttrs_cons_inv k2
   obtain ⟨o4, q4, r4, e4, k4, rfl⟩ := runAttrs_cons_inv k3
-  obtain ⟨r5, q5, r6, e5, k5, rfl⟩ := runAttrs_append_inv k4
-  rw [annoBlocks_nil] at e5
-  have := ok_inj.mp e5
-  cases this
+  obtain ⟨r5, q8, r6, e5, k5, rfl⟩ := runAttrs_append_inv k4
+  obtain ⟨o5, q5, o6, q6, o7, q7, o8, e5a, e6, e7, e8, rfl⟩ := annoBlocks_inv e5
   obtain ⟨t1, c1⟩ := flagAttr_spec s2.good e1
   obtain ⟨t2, c2⟩ := flagAttr_spec t1.good e2
-  obtain ⟨t4, c4⟩ := sigAttr_spec (p := q3) (by
-    rcases ifSome_inv e3 with ⟨v, b, _, hb, _⟩ | ⟨_, _, rfl⟩
-    · obtain ⟨nc, p1', cp, s1', _, _, h3', _⟩ := fix2_spec t2.good hb
-      exact ((putConstantValue_spec s1'.good h3').1).good
-    · exact t2.good) e4
   have t3 : Step q2 q3 ∧ ((f.constant = none ∧ o3 = none) ∨
       (∃ v cp, f.constant = some v ∧ Present o3 q3 sConstantValue (be16 cp) ∧ cp < 65536 ∧ ConstAt q3 cp v)) := by
     rcases ifSome_inv e3 with ⟨v, b, hv, hb, rfl⟩ | ⟨hv, rfl, rfl⟩
@@ -114,94 +179,61 @@ theorem writeField_spec {p p' : Pool} {f : FieldFacts} {b : Bytes} (hg : Good p)
       exact ⟨s1'.trans s2', Or.inr ⟨v, cp, hv, ⟨nc, rfl, hn, a1'.mono s2'.le⟩, hc, a2'⟩⟩
     · exact ⟨Step.refl t2.good, Or.inl ⟨hv, rfl⟩⟩
   obtain ⟨t3, c3⟩ := t3
-  obtain ⟨t5, ncs, hlen, rfl, hunk⟩ := unknownAttrs_spec f.attrs t4.good k5
+  obtain ⟨t4, c4⟩ := sigAttr_spec t3.good e4
+  obtain ⟨t5, c5⟩ := annosAttr_spec t4.good hok.rva e5a
+  obtain ⟨t6, c6⟩ := annosAttr_spec t5.good hok.ria e6
+  obtain ⟨t7, c7⟩ := typeAnnosAttr_spec writeTargetField_eq t6.good hok.rvta e7
+  obtain ⟨t8, c8⟩ := typeAnnosAttr_spec writeTargetField_eq t7.good hok.rita e8
+  obtain ⟨t9, ncs, hlen, rfl, hunk⟩ := unknownAttrs_spec f.attrs t8.good k5
   obtain ⟨hcount, rfl⟩ := attrsBytes_inv h4
-  have stepAll : Step p p' := s1.trans (s2.trans (t1.trans (t2.trans (t3.trans (t4.trans t5)))))
-  refine ⟨stepAll, ?_⟩
-  -- the layout attributes, block by block
-  have L1 : ∃ lo : Option SFieldAttr, o1 = lo.map SFieldAttr.frame ∧
-      (∀ a ∈ lo, Sound q1 (fun rp => a.Legal rp)) ∧
-      ∀ st : FieldFacts, applyAll SFieldAttr.apply st lo.toList = some { st with deprecated := st.deprecated || f.deprecated } := by
-    rcases c1 with ⟨hf, rfl⟩ | ⟨hf, nc, rfl, hn, a⟩
-    · exact ⟨none, rfl, by simp, fun st => by simp [applyAll, hf]⟩
-    · refine ⟨some (.deprecated nc), rfl, ?_, fun st => by simp [applyAll, SFieldAttr.apply, hf]⟩
-      intro x hx q hq
-      cases Option.mem_some_iff.mp hx
-      exact ⟨hn, getUtf8_of hq.good (a.mono hq.le)⟩
-  have L2 : ∃ lo : Option SFieldAttr, o2 = lo.map SFieldAttr.frame ∧
-      (∀ a ∈ lo, Sound q2 (fun rp => a.Legal rp)) ∧
-      ∀ st : FieldFacts, applyAll SFieldAttr.apply st lo.toList = some { st with synthetic := st.synthetic || f.synthetic } := by
-    rcases c2 with ⟨hf, rfl⟩ | ⟨hf, nc, rfl, hn, a⟩
-    · exact ⟨none, rfl, by simp, fun st => by simp [applyAll, hf]⟩
-    · refine ⟨some (.synthetic nc), rfl, ?_, fun st => by simp [applyAll, SFieldAttr.apply, hf]⟩
-      intro x hx q hq
-      cases Option.mem_some_iff.mp hx
-      exact ⟨hn, getUtf8_of hq.good (a.mono hq.le)⟩
-  have L3 : ∃ lo : Option SFieldAttr, o3 = lo.map SFieldAttr.frame ∧
-      (∀ a ∈ lo, Sound q3 (fun rp => a.Legal rp)) ∧
-      ∀ st : FieldFacts, st.constant = none → applyAll SFieldAttr.apply st lo.toList = some { st with constant := f.constant } := by
-    rcases c3 with ⟨hf, rfl⟩ | ⟨v, cp, hf, ⟨nc, rfl, hn, a⟩, hc, ac⟩
-    · exact ⟨none, rfl, by simp, fun st hst => by cases st; simp_all [applyAll]⟩
-    · refine ⟨some (.constantValue nc cp v), rfl, ?_, fun st hst => by simp [applyAll, SFieldAttr.apply, hf, hst]⟩
-      intro x hx q hq
-      cases Option.mem_some_iff.mp hx
-      exact ⟨hn, getUtf8_of hq.good (a.mono hq.le), hc, getConstantValue_of hq.good (ac.mono hq.le)⟩
-  have L4 : ∃ lo : Option SFieldAttr, o4 = lo.map SFieldAttr.frame ∧
-      (∀ a ∈ lo, Sound q4 (fun rp => a.Legal rp)) ∧
-      ∀ st : FieldFacts, st.signature = none → applyAll SFieldAttr.apply st lo.toList = some { st with signature := f.signature } := by
-    rcases c4 with ⟨hf, rfl⟩ | ⟨v, cp, hf, ⟨nc, rfl, hn, a⟩, hc, ac⟩
-    · exact ⟨none, rfl, by simp, fun st hst => by cases st; simp_all [applyAll]⟩
-    · refine ⟨some (.signature nc cp v), rfl, ?_, fun st hst => by simp [applyAll, SFieldAttr.apply, hf, hst]⟩
-      intro x hx q hq
-      cases Option.mem_some_iff.mp hx
-      exact ⟨hn, getUtf8_of hq.good (a.mono hq.le), hc, getUtf8_of hq.good (ac.mono hq.le)⟩
-  obtain ⟨l1, rfl, sd1, f1⟩ := L1
-  obtain ⟨l2, rfl, sd2, f2⟩ := L2
-  obtain ⟨l3, rfl, sd3, f3⟩ := L3
-  obtain ⟨l4, rfl, sd4, f4⟩ := L4
-  let unk : List SFieldAttr := (ncs.zip f.attrs).map fun x => SFieldAttr.unknown x.1 x.2.name x.2.bytes
-  let attrs : List SFieldAttr := l1.toList ++ (l2.toList ++ (l3.toList ++ (l4.toList ++ unk)))
-  have hmap : attrs.map SFieldAttr.frame
-      = (l1.map SFieldAttr.frame).toList ++ ((l2.map SFieldAttr.frame).toList ++ ((l3.map SFieldAttr.frame).toList ++
-          ((l4.map SFieldAttr.frame).toList ++ ([] ++ (ncs.zip f.attrs).map fun x => attrFrame x.1 x.2.bytes)))) := by
-    simp only [attrs, unk, List.map_append, List.map_map, List.nil_append, toList_map]
-    rfl
+  have s8 := t9
+  have s7 := t8.trans s8
+  have s6 := t7.trans s7
+  have s5 := t6.trans s6
+  have s4 := t5.trans s5
+  have s3 := t4.trans s4
+  have s2' := t3.trans s3
+  have s1' := t2.trans s2'
+  have s0 := t1.trans s1'
+  refine ⟨s1.trans (s2.trans s0), ?_⟩
+  have B := GBlocks.cons' (fblock_deprecated c1) s1'.le
+    (GBlocks.cons' (fblock_synthetic c2) s2'.le
+    (GBlocks.cons (fblock_constant c3) s3.le
+    (GBlocks.cons (fblock_signature c4) s4.le
+    (GBlocks.cons' (fblock_annos true c5) s5.le
+    (GBlocks.cons' (fblock_annos false c6) s6.le
+    (GBlocks.cons' (fblock_typeAnnos true c7) s7.le
+    (GBlocks.cons' (fblock_typeAnnos false c8) s8.le
+      (fblocks_unknown hok.unknown hlen hunk)
+      (fun _ _ => trivial)) (fun _ _ => trivial)) (fun _ _ => trivial)) (fun _ _ => trivial))
+      (pre := fun c : FieldFacts => c.signature = none) (fun c h => ⟨h, trivial⟩))
+      (pre := fun c : FieldFacts => c.constant = none ∧ c.signature = none) (fun c h => ⟨h.1, h.2⟩))
+      (pre2 := fun c : FieldFacts => c.constant = none ∧ c.signature = none) (fun c h => ⟨h.1, h.2⟩))
+      (pre2 := fun c : FieldFacts => c.constant = none ∧ c.signature = none) (fun c h => ⟨h.1, h.2⟩)
+  obtain ⟨attrs, hbytes, hsound, hfacts⟩ := B
   refine ⟨⟨f.access, ni, f.name, di, f.desc, attrs⟩, ?_, ?_, ?_⟩
-  · -- bytes
-    simp only [FieldLayout.encode, encAttrs_eq]
-    rw [← hmap, List.length_map]
+  · simp only [FieldLayout.encode, encAttrs_eq]
+    have hb' : o1.toList ++ (o2.toList ++ (o3.toList ++ (o4.toList ++ (o5.toList ++ (o6.toList ++ (o7.toList ++ (o8.toList ++ [])))
+        ++ List.map (fun x => attrFrame x.fst x.snd.bytes) (ncs.zip f.attrs))))) = attrs.map SFieldAttr.frame := by
+      rw [show attrs.map SFieldAttr.frame = attrs.map ownField.frame from rfl, ← hbytes]; simp [List.append_assoc]
+    rw [hb', List.length_map]
     rfl
-  · -- legality in every pool still reachable
-    intro q hq
-    have hq1 : Ext p1 q := hq.of_le (s2.trans (t1.trans (t2.trans (t3.trans (t4.trans t5))))).le
-    have hq2 : Ext p2 q := hq.of_le (t1.trans (t2.trans (t3.trans (t4.trans t5)))).le
-    refine ⟨hok.access, hni, hdi, getUtf8_of hq.good (a1.mono hq1.le), hok.name, getUtf8_of hq.good (a2.mono hq2.le), ?_, ?_⟩
-    · have : attrs.length = (attrs.map SFieldAttr.frame).length := by simp
-      rw [this, hmap]
-      omega
-    · intro a ha
-      simp only [attrs, List.mem_append, Option.mem_toList] at ha
-      rcases ha with ha | ha | ha | ha | ha
-      · exact sd1 a ha q (hq.of_le (t2.trans (t3.trans (t4.trans t5))).le)
-      · exact sd2 a ha q (hq.of_le (t3.trans (t4.trans t5)).le)
-      · exact sd3 a ha q (hq.of_le (t4.trans t5).le)
-      · exact sd4 a ha q (hq.of_le t5.le)
-      · simp only [unk, List.mem_map] at ha
-        obtain ⟨x, hx, rfl⟩ := ha
-        obtain ⟨hn, hu, hb⟩ := hunk x hx
-        exact ⟨hn, getUtf8_of hq.good (hu.mono hq.le), hok.unknown x.2 (List.of_mem_zip hx).2, hb⟩
-  · -- the facts
-    simp only [FieldLayout.facts, attrs, applyAll_append, f1, f2, Option.bind_some]
-    rw [f3 _ rfl]
-    simp only [Option.bind_some]
-    rw [f4 _ rfl]
-    simp only [Option.bind_some, unk]
-    rw [applyAll_field_unknown _ ncs f.attrs hlen]
+  · intro q hq
+    have hq1 : Ext p1 q := hq.of_le (s2.trans s0).le
+    have hq2 : Ext p2 q := hq.of_le s0.le
+    refine ⟨hok.access, hni, hdi, getUtf8_of hq.good (a1.mono hq1.le), hok.name, getUtf8_of hq.good (a2.mono hq2.le), ?_,
+      fun a ha => hsound a ha q hq⟩
+    have hb' : o1.toList ++ (o2.toList ++ (o3.toList ++ (o4.toList ++ (o5.toList ++ (o6.toList ++ (o7.toList ++ (o8.toList ++ [])))
+        ++ List.map (fun x => attrFrame x.fst x.snd.bytes) (ncs.zip f.attrs))))) = attrs.map SFieldAttr.frame := by
+      rw [show attrs.map SFieldAttr.frame = attrs.map ownField.frame from rfl, ← hbytes]; simp [List.append_assoc]
+    rw [hb', List.length_map] at hcount
+    show attrs.length < 65536
+    omega
+  · have := hfacts ⟨f.access &&& maskField, f.name, f.desc, false, false, none, none, [], [], [], [], []⟩ ⟨rfl, rfl⟩
+    simp only [FieldLayout.facts]
+    show applyAll ownField.apply _ attrs = some f
+    rw [this]
     have hm := hok.mask
-    have g1 := hok.rva
-    have g2 := hok.ria
-    have g3 := hok.rvta
-    have g4 := hok.rita
     cases f
     simp_all
 
